@@ -126,7 +126,8 @@ theorem tie_dev_prebind_order :
     C19.devPreBindObjectUses = ["SetDeviceAllocations", "adaptForDevicePlugin"] := by decide
 
 /-- ext5: no Adapt method of device_plugin_adapter.go assigns through its allocation parameter: the adapters are
-    functions of the allocation (hypothesis of dev_prebind_persists_reserved_allocation) -/
-theorem tie_dev_adapters_read_only : C19.devAdaptersWriteAllocation = [] ∧ C19.devAdaptersCount = 5 := by decide
+    functions of the allocation (hypothesis of dev_prebind_persists_reserved_allocation); at least the five known
+    methods were inspected (general, general GPU, huawei, cambricon, metax) -/
+theorem tie_dev_adapters_read_only : C19.devAdaptersWriteAllocation = [] ∧ 5 ≤ C19.devAdaptersCount := by decide
 
 end KoordVerif.C19
